@@ -309,7 +309,12 @@ pub struct CertPool {
 }
 impl CertPool {
     pub fn load() -> CertPool {
-        let dir = concat!(env!("CARGO_MANIFEST_DIR"), "/../corpus/certs");
+        // the directory baked in at build time, unless it is gone (a lib built from a scratch copy of the
+        // harness into the shared target directory): then the corpus of the working directory / of /verif
+        let dir = [concat!(env!("CARGO_MANIFEST_DIR"), "/../corpus/certs"), "corpus/certs", "/verif/corpus/certs"]
+            .into_iter()
+            .find(|d| std::path::Path::new(&format!("{d}/names.txt")).exists())
+            .unwrap_or("corpus/certs");
         let mut pems = vec![];
         for i in 0.. {
             match std::fs::read_to_string(format!("{dir}/{i:02}.pem")) {
@@ -425,6 +430,28 @@ fn ostr_of(t: i128) -> Option<String> {
         Some(st(t - 1))
     }
 }
+/// listener-level HSTS blocks: 0 lacks `enabled` (refused in a patch), the others are acceptable
+fn hsts_pool(i: i128) -> HstsConfig {
+    match i.rem_euclid(4) {
+        0 => HstsConfig { enabled: None, max_age: Some(10), ..Default::default() },
+        1 => HstsConfig { enabled: Some(true), max_age: Some(10), ..Default::default() },
+        2 => HstsConfig { enabled: Some(false), ..Default::default() },
+        _ => HstsConfig { enabled: Some(true), max_age: Some(0), include_subdomains: Some(true), ..Default::default() },
+    }
+}
+fn hsts_tok(h: &Option<HstsConfig>) -> i128 {
+    match h {
+        None => 0,
+        Some(h) => (0..4).find(|i| hsts_pool(*i) == *h).map(|i| i + 1).unwrap_or(POISON),
+    }
+}
+fn hsts_of(t: i128) -> Option<HstsConfig> {
+    if t == 0 {
+        None
+    } else {
+        Some(hsts_pool(t - 1))
+    }
+}
 fn obool_tok(b: &Option<bool>) -> i128 {
     match b {
         None => 0,
@@ -475,6 +502,8 @@ macro_rules! http_common_fields {
         $m!(u32 back_timeout);
         $m!(u32 connect_timeout);
         $m!(u32 request_timeout);
+        $m!(obool elide_x_real_ip);
+        $m!(obool send_x_real_ip);
         h2_fields!($m);
     };
 }
@@ -538,6 +567,7 @@ macro_rules! getter {
             (ou32 $f:ident) => { $out.push((stringify!($f).to_string(), $l.$f.map(|v| v as i128 + 1).unwrap_or(0))); };
             (ou64 $f:ident) => { $out.push((stringify!($f).to_string(), $l.$f.map(|v| v as i128 + 1).unwrap_or(0))); };
             (alpn $f:ident) => { $out.push((stringify!($f).to_string(), alpn_idx(&$l.$f))); };
+            (hsts $f:ident) => { $out.push((stringify!($f).to_string(), hsts_tok(&$l.$f))); };
         }
     };
 }
@@ -553,6 +583,7 @@ macro_rules! setter {
             (ou32 $f:ident) => { if $name == stringify!($f) { $l.$f = if $t == 0 { None } else { Some(($t - 1) as u32) }; $done = true; } };
             (ou64 $f:ident) => { if $name == stringify!($f) { $l.$f = if $t == 0 { None } else { Some(($t - 1) as u64) }; $done = true; } };
             (alpn $f:ident) => { if $name == stringify!($f) { $l.$f = alpn($t); $done = true; } };
+            (hsts $f:ident) => { if $name == stringify!($f) { $l.$f = hsts_of($t); $done = true; } };
         }
     };
 }
@@ -569,6 +600,7 @@ macro_rules! patcher {
             (ou32 $f:ident) => { if $name == stringify!($f) { $p.$f = Some($t as u32); $done = true; } };
             (ou64 $f:ident) => { if $name == stringify!($f) { $p.$f = Some($t as u64); $done = true; } };
             (alpn $f:ident) => { if $name == stringify!($f) { $p.$f = Some(AlpnProtocols { values: alpn($t) }); $done = true; } };
+            (hsts $f:ident) => { if $name == stringify!($f) { $p.$f = Some(hsts_pool($t)); $done = true; } };
         }
     };
 }
@@ -593,6 +625,11 @@ fn http_patch(p: &mut UpdateHttpListenerConfig, name: &str, t: i128) -> bool {
         p.http_answers.get_or_insert_with(CustomHttpAnswers::default);
         return true;
     }
+    if name == "answers" {
+        // the map form of the answer templates (status -> body); not among the fields the handlers read
+        p.answers.insert("503".into(), st(t));
+        return true;
+    }
     if ANSWER_FIELDS.contains(&name) {
         let c = p.http_answers.get_or_insert_with(CustomHttpAnswers::default);
         *answer_slot(c, name).unwrap() = Some(st(t));
@@ -609,6 +646,7 @@ fn https_get(l: &HttpsListenerConfig) -> Vec<(String, i128)> {
     g!(alpn alpn_protocols);
     g!(obool strict_sni_binding);
     g!(obool disable_http11);
+    g!(hsts hsts);
     answers_get(&l.http_answers, &mut out);
     out.sort();
     out
@@ -620,12 +658,18 @@ fn https_set(l: &mut HttpsListenerConfig, name: &str, t: i128) -> bool {
     s!(alpn alpn_protocols);
     s!(obool strict_sni_binding);
     s!(obool disable_http11);
+    s!(hsts hsts);
     done
 }
 fn https_patch(p: &mut UpdateHttpsListenerConfig, name: &str, t: i128) -> bool {
     let mut done = false;
     if name == "http_answers" {
         p.http_answers.get_or_insert_with(CustomHttpAnswers::default);
+        return true;
+    }
+    if name == "answers" {
+        // the map form of the answer templates (status -> body); not among the fields the handlers read
+        p.answers.insert("503".into(), st(t));
         return true;
     }
     if ANSWER_FIELDS.contains(&name) {
@@ -638,6 +682,7 @@ fn https_patch(p: &mut UpdateHttpsListenerConfig, name: &str, t: i128) -> bool {
     p!(alpn alpn_protocols);
     p!(obool strict_sni_binding);
     p!(obool disable_http11);
+    p!(hsts hsts);
     done
 }
 macro_rules! tcp_fields {
@@ -703,8 +748,7 @@ fn http_base(a: i128, rest: i128) -> HttpListenerConfig {
         l.answers.insert("404".into(), "nf".into());
     }
     if rest & 2 == 2 {
-        l.elide_x_real_ip = Some(false);
-        l.send_x_real_ip = Some(true);
+        l.answers.insert("503".into(), "su".into());
     }
     l
 }
@@ -719,7 +763,6 @@ fn https_base(a: i128, rest: i128) -> HttpsListenerConfig {
         l.certificate = Some(String::new());
         l.key = Some("k".into());
         l.send_tls13_tickets = 4;
-        l.hsts = Some(HstsConfig { enabled: Some(false), ..Default::default() });
     }
     l
 }
@@ -1731,6 +1774,9 @@ pub fn print_oracle(cx: &Ctx) {
     }
     for i in 0..ALPNS.len() {
         writeln!(w, "alpn {i} {}", sozu_command_lib::state::validate_alpn_protocols(&alpn(i as i128)).is_ok() as i128).unwrap();
+    }
+    for i in 0..4 {
+        writeln!(w, "hsts {i} {}", sozu_command_lib::state::validate_hsts_patch(&hsts_pool(i)).is_ok() as i128).unwrap();
     }
     writeln!(w, "sizes addrs {} strs {} alpns {} hosts {} paths {} methods {} cluster_rest {} front_rest {} names {}", ADDRS.len(), STRS.len(), ALPNS.len(), HOSTS.len(), PATHS.len(), METHODS.len(), N_CLUSTER_REST, N_FRONT_REST, cx.pool.names.len()).unwrap();
     let l = HttpListenerConfig::default();
